@@ -19,6 +19,7 @@ type Direct struct {
 	ServeErr  error
 	ServeCtx  context.Context
 	StopServe context.CancelFunc
+	Demux     *goat.Demux
 }
 
 type DirectOpts struct {
@@ -28,6 +29,7 @@ type DirectOpts struct {
 	NoClient     bool
 	NoServer     bool
 	ServeTimeout time.Duration // >0: the context handed to Serve has this deadline (bounding the connection's lifetime)
+	Demux        bool          // client --pipe-- Demux(by source) -- one Serve per logical connection
 }
 
 // NewDirect builds the topology; the server's Serve runs in its own thread.
@@ -44,10 +46,18 @@ func NewDirect(impl SvcServer, o DirectOpts) *Direct {
 		if o.ServeTimeout > 0 {
 			d.ServeCtx, d.StopServe = context.WithTimeout(context.Background(), o.ServeTimeout)
 		}
-		vsched.GoNamed("serve", func() {
-			d.ServeErr = d.Srv.Serve(d.ServeCtx, d.Pipe.B)
-			d.ServeDone = true
-		})
+		if o.Demux {
+			d.Demux = goat.NewDemux(d.ServeCtx, d.Pipe.B, func(r *Rpc) string { return r.GetHeader().GetSource() }, func(rw goat.RpcReadWriter) {
+				d.ServeErr = d.Srv.Serve(d.ServeCtx, rw)
+				d.ServeDone = true
+			})
+			vsched.GoNamed("demux", func() { d.Demux.Run() })
+		} else {
+			vsched.GoNamed("serve", func() {
+				d.ServeErr = d.Srv.Serve(d.ServeCtx, d.Pipe.B)
+				d.ServeDone = true
+			})
+		}
 	}
 	if !o.NoClient {
 		d.CC = goat.NewClientConn(d.Pipe.A, "cli", "srv", o.DialOpts...)
